@@ -2,7 +2,7 @@
 From Coq Require Import ZArith List.
 From TT Require Import Base.F64.
 Import ListNotations.
-Open Scope Z_scope.
+Local Open Scope Z_scope.
 
 (* the untyped Go constants, rounded once to float64 as the compiler does *)
 Definition c_m2km : f64 := f_of_ratio 160934 100000.
